@@ -332,6 +332,8 @@ func compute(lunar *Lunar, lunarYear *LunarYear) {
 	computeDay(lunar)
 	computeTime(lunar)
 	computeWeek(lunar)
+	// created here, not on first use in the getter: a Lunar shared by goroutines must be read-only
+	lunar.eightChar = NewEightChar(lunar)
 }
 
 // GetGan @Deprecated: 该方法已废弃，请使用GetYearGan
